@@ -65,13 +65,10 @@ theorem rinv_step (s s' : St) (a : Act) (h : RInv s) (hs : step s a = some s') :
     simp only [step] at hs
     split at hs
     · rename_i hc
-      injection hs with hs; subst hs
-      refine ⟨?_, ?_⟩
-      · intro h
-        rcases h with h | ⟨i, h⟩
-        · simp at h; exact h
-        · simp at h
-      · intro i hi
+      split at hs
+      · injection hs with hs; subst hs
+        refine ⟨by intro h; simp at h, ?_⟩
+        intro i hi
         have := h2 i hi
         simp only [hc] at this
         rcases this with a | a | a | a
@@ -79,6 +76,20 @@ theorem rinv_step (s s' : St) (a : Act) (h : RInv s) (hs : step s a = some s') :
         · simp at a
         · simp at a
         · exact Or.inr (Or.inr (Or.inr a))
+      · injection hs with hs; subst hs
+        refine ⟨?_, ?_⟩
+        · intro h
+          rcases h with h | ⟨i, h⟩
+          · simp at h; exact h
+          · simp at h
+        · intro i hi
+          have := h2 i hi
+          simp only [hc] at this
+          rcases this with a | a | a | a
+          · exact Or.inl a
+          · simp at a
+          · simp at a
+          · exact Or.inr (Or.inr (Or.inr a))
     · simp at hs
   | addCreate =>
     simp only [step] at hs
@@ -118,6 +129,17 @@ theorem rinv_step (s s' : St) (a : Act) (h : RInv s) (hs : step s a = some s') :
   | addUnlock =>
     simp only [step] at hs
     split at hs
+    · rename_i hc
+      injection hs with hs; subst hs
+      refine ⟨by intro h; simp at h, ?_⟩
+      intro j hj
+      have := h2 j hj
+      simp only [hc] at this
+      rcases this with a | a | a | a
+      · exact Or.inl a
+      · simp at a
+      · simp at a
+      · exact Or.inr (Or.inr (Or.inr a))
     · rename_i i hc
       injection hs with hs; subst hs
       refine ⟨by intro h; simp at h, ?_⟩
@@ -298,6 +320,45 @@ theorem rinv_run : ∀ (as : List Act) (s s' : St), RInv s → run s as = some s
     simp only [run] at hr
     split at hr
     · rename_i s1 hs1; exact rinv_run as s1 s' (rinv_step s s1 a h hs1) hr
+    · simp at hr
+
+/-- once policyConnPool.Close has swept the map (`closed`, set under the mutex) nothing is registered any more and no
+    addHost caller is on its way to a store: every later caller finds `closed` under the mutex and leaves -/
+def RClosed (s : St) : Prop :=
+  s.closed = true → s.reg = none ∧ (∀ x, s.crit ≠ some (.addLooked x)) ∧ (∀ i, s.crit ≠ some (.addCreated i)) ∧
+    ∀ i, s.crit ≠ some (.addStored i)
+
+theorem rclosed_init (b : Bool) : RClosed (St.init b) := by
+  intro h; cases b <;> simp [St.init] at h
+
+theorem rclosed_step (s s' : St) (a : Act) (h : RClosed s) (hs : step s a = some s') : RClosed s' := by
+  unfold RClosed at h ⊢
+  cases a <;> simp only [step] at hs <;> (repeat' split at hs) <;>
+    first
+    | (simp at hs; done)
+    | (injection hs with hs; subst hs; simp_all)
+
+theorem rclosed_run : ∀ (as : List Act) (s s' : St), RClosed s → run s as = some s' → RClosed s'
+  | [], s, s', h, hr => by simp [run] at hr; subst hr; exact h
+  | a :: as, s, s', h, hr => by
+    simp only [run] at hr
+    split at hr
+    · rename_i s1 hs1; exact rclosed_run as s1 s' (rclosed_step s s1 a h hs1) hr
+    · simp at hr
+
+/-- `closed` is never reset -/
+theorem closed_mono (s s' : St) (a : Act) (hs : step s a = some s') (hc : s.closed = true) : s'.closed = true := by
+  cases a <;> simp only [step] at hs <;> (repeat' split at hs) <;>
+    first
+    | (simp at hs; done)
+    | (injection hs with hs; subst hs; simp_all)
+
+theorem closed_run : ∀ (as : List Act) (s s' : St), run s as = some s' → s.closed = true → s'.closed = true
+  | [], s, s', hr, hc => by simp [run] at hr; subst hr; exact hc
+  | a :: as, s, s', hr, hc => by
+    simp only [run] at hr
+    split at hr
+    · rename_i s1 hs1; exact closed_run as s1 s' hr (closed_mono s s1 a hs1 hc)
     · simp at hr
 
 end C17Reg
